@@ -13,6 +13,8 @@ fn main() {
     let out = match args.first().map(String::as_str) {
         Some("range-search") => range::search(),
         Some("range") => range::one(&args[1..]),
+        Some("range-parse-search") => range::parse_search(),
+        Some("range-parse") => range::parse_one(&args[1..]),
         Some("pattern-search") => pattern::search(),
         Some("pattern") => pattern::one(&args[1..]),
         Some("route") => service::route(&args[1..]),
